@@ -148,7 +148,7 @@ fn backward_nest(
                 forall|f0: int, c0: int, i0: int, j0: int| 0 <= f0 < kf && 0 <= c0 < kc && 0 <= i0 < kh && 0 <= j0 < kw ==> #[trigger] kgradient@[f0]@[c0]@[i0]@[j0] == b6(g, Cell::K(f0, c0, i0, j0), f as int, c as int, h as int, w as int, i as int, __it1 as int, b5(g, Cell::K(f0, c0, i0, j0), f as int, c as int, h as int, w as int, i as int, b4(g, Cell::K(f0, c0, i0, j0), f as int, c as int, h as int, w as int, b3(g, Cell::K(f0, c0, i0, j0), f as int, c as int, h as int, b2(g, Cell::K(f0, c0, i0, j0), f as int, c as int, b1(g, Cell::K(f0, c0, i0, j0), f as int, 0.0f32)))))), //@ob adjoint_k.inv
             decreases kw - __it1,
     //@end
-    //@before /let oi = h \* self\.stride\.0 \+ i;/
+    //@before /let oi = /
                                 broadcast use {f32_total};
                                 proof {
                                     f32_obeys();
